@@ -149,7 +149,41 @@ func c05Run(w *verifrt.World, tier Tier) *RunResult {
 	if faultFired {
 		res.count("fault_"+sc.FaultKind, 1)
 	}
-	got := runTx(h, sc.Probe)
+	// a bystander transaction stays alive while the probe runs: two live
+	// transactions must be two objects whatever the predecessors did (a
+	// predecessor closed twice must not put its object into the pool twice)
+	byRun := func(hh *wafHandle, between func()) (out string) {
+		if p := safely(func() {
+			by := hh.WAF.NewTransactionWithID("bystander")
+			by.ProcessURI("/bystander?a=tok1&b=evil", "GET", "HTTP/1.1")
+			by.AddRequestHeader("Host", "bystander")
+			it1 := by.ProcessRequestHeaders()
+			between()
+			it2, _ := by.ProcessRequestBody()
+			ms := summarise(by.MatchedRules())
+			out = fmt.Sprintf("id=%s p1=%v p2=%v fired=%v data=%v", by.ID(), itOf(it1), itOf(it2), ms.Order, ms.Data)
+			by.ProcessLogging()
+			by.Close()
+		}); p != "" {
+			out = "PANIC " + p
+		}
+		return out
+	}
+	w.PoolPolicy = verifrt.PoolNew
+	var byRef string
+	if hb, err := buildWAF(text); err == nil {
+		byRef = byRun(hb, func() {})
+		hb.Close()
+	}
+	w.PoolPolicy = verifrt.PoolLIFO
+	var got *Outcome
+	byGot := byRun(h, func() { got = runTx(h, sc.Probe) })
+	if got == nil {
+		got = &Outcome{Panic: "bystander failed before the probe could run: " + byGot}
+	}
+	if byRef != byGot {
+		res.fail("C05", "live-transactions-share-state", "bystander", "a transaction kept alive while the probe ran behaves differently from the same transaction on a fresh WAF:\nfresh:   %s\nhistory: %s\nconfiguration:\n%s\npredecessors: %s", clip(byRef, 1500), clip(byGot, 1500), text, jsonOf(sc.Predecessors))
+	}
 	res.Nontrivial = w.PoolReuse > reuseBefore
 	if w.PoolReuse > reuseBefore {
 		res.count("probe_on_recycled_object", 1)
